@@ -182,7 +182,7 @@ pub fn run(ctx: &Ctx) -> Outcome {
     );
     let total = small_space_total();
     if ctx.quick() || ctx.scale_div > 1 || ctx.miri {
-        let n = if ctx.miri { 6_000 } else { ctx.n(400_000, 4_000_000) };
+        let n = if ctx.miri { 6_000 } else { ctx.n(1_000_000, 4_000_000) };
         run_cases(ctx, &mut out, SubSpec { name: "small_space_sampled", cases: n, exhaustive: false, max_secs: 40. }, |i, want, st| {
             let mut rng = ctx.rng("small_space_sampled", i);
             // 3 of 4 samples are redrawn until the model transfers a pixel (most of the space transfers nothing)
@@ -200,7 +200,7 @@ pub fn run(ctx: &Ctx) -> Outcome {
     } else {
         run_cases(ctx, &mut out, SubSpec { name: "small_space_exhaustive", cases: total, exhaustive: true, max_secs: 3000. }, |i, want, st| run_case(&small_case(i), st, want));
     }
-    run_cases(ctx, &mut out, SubSpec { name: "random_larger", cases: if ctx.miri { 4_000 } else { ctx.n(100_000, 5_000_000) }, exhaustive: false, max_secs: if ctx.quick() { 25. } else { 600. } }, |i, want, st| {
+    run_cases(ctx, &mut out, SubSpec { name: "random_larger", cases: if ctx.miri { 4_000 } else { ctx.n(300_000, 5_000_000) }, exhaustive: false, max_secs: if ctx.quick() { 25. } else { 600. } }, |i, want, st| {
         let mut rng = ctx.rng("random_larger", i);
         let (sw, sh, dw, dh) = (rng.int(0, 12) as i32, rng.int(0, 12) as i32, rng.int(0, 12) as i32, rng.int(0, 12) as i32);
         let far = rng.chance(0.1);
